@@ -167,7 +167,7 @@ class StreamWorld(World):
                    "only by the first fetch after the reconnect, as the code documents",
                    "when line pre-emption makes a fetch / close / disconnect / housekeeping step overlap another one, the streams "
                    "they touch are only checked for item order, crashes and the empty table at the end"]
-    QUICK_RUNS = 3000
+    QUICK_RUNS = 8000
     CHUNK = 100
     SHRINK_LISTS = ["ops"]
 
